@@ -115,6 +115,23 @@ def wrap_datastore_calls(ds, tracer):
     setattr(ds, name, make(fn, name))
 
 
+def raw_orphans(dbfile):
+  """Rows of the child tables (read straight from the SQLite file) whose study row does not exist:
+  invisible through the API, but they come back when a study of the same name is created."""
+  import sqlite3
+  con = sqlite3.connect(dbfile)
+  try:
+    out = {}
+    for table in ('trials', 'suggestion_operations', 'early_stopping_operations'):
+      n = con.execute('SELECT count(*) FROM %s c WHERE NOT EXISTS (SELECT 1 FROM studies s WHERE s.owner_id = c.owner_id '
+                      'AND s.study_id = c.study_id)' % table).fetchone()[0]
+      if n:
+        out[table] = n
+    return out
+  finally:
+    con.close()
+
+
 def open_runner(dbfile, known=None):
   import datetime
   py = svcreal.ScriptedPythia()
@@ -159,7 +176,7 @@ def crash_stage(c):
       del rr0
       targets = targets_for(pi)
       if c.tier == 'quick':
-        targets = targets[:5] + targets[8:11]
+        targets = targets[:5] + targets[6:7] + targets[8:11]
       models = c.lean('Svc', [{'op': 'crash', 'cfg': cfg, 'prefix': prefix, 'req': t} for t in targets])
       for t, m in zip(targets, models):
         if 'error' in m:
@@ -227,6 +244,10 @@ def crash_stage(c):
             c.prop_fail('unreadable-after-crash:' + t['op'], 'after a crash before SQL event %d of %s the restarted server cannot read its data: %r' % (k, t['op'], e), case)
             continue
           case['recovered'] = rec
+          orphans = raw_orphans(f)
+          if orphans:
+            c.prop_fail('orphan-rows-after-crash:' + t['op'],
+                        'a crash before SQL event %d of %s left rows of a study that no longer exists on disk (%s): the call is neither applied nor not applied' % (k, t['op'], orphans), case)
           if rec not in model_states:
             c.tie_break('recovered state after crash vs model crash states', case, rec, {'n_states': len(model_states)})
           else:
@@ -258,6 +279,12 @@ def crash_stage(c):
               r3 = rr2.step({'op': 'suggest', 'client': t['client'], 'count': 1, 'alg': rr2.py.alg})
               if r3.get('k') == 'op' and not r3['v']['done']:
                 c.prop_fail(KEY_WEDGE, 'after a crash inside SuggestTrials (before SQL event %d) the same worker is handed its abandoned unfinished operation on every later call' % k, case)
+          elif not any(s['sid'] == 's' for s in rec['studies']):
+            # the study is gone: a study created again under the same name must start empty
+            r1 = rr2.step({'op': 'createStudy', 'owner': 'o', 'display': 's', 'state': 'ACTIVE'})
+            r2 = rr2.step({'op': 'listTrials'})
+            if r1.get('k') != 'study' or r2.get('k') != 'trials' or r2['v']:
+              c.prop_fail('deleted-study-resurrects-trials:' + t['op'], 'after the restart a study re-created under the deleted name is not empty: %s / %s' % (r1, json.dumps(r2)[:300]), case)
           del rr2
         for v, case in zip(c.lean('Svc', judge_reqs), judge_ctx):
           if not (v['lifecycle'] and v['fresh'] and v['nodup'] and v['clients']):
